@@ -155,6 +155,29 @@ func WorkerMain(args []string) int {
 				min, minRes, runs = Minimise(prop, plan, res, 3000)
 				out.ShrinkRuns += runs
 			}
+			if path != "" && !*noShrink && fps != nil && fps.FreshProcessShrink() {
+				// every candidate of this property is executed in a fresh process (e.g. the race
+				// detector reports each race only once per process)
+				start := plan
+				if !plan.Explicit {
+					q := plan.Clone()
+					q.Explicit = true
+					q.Decisions = append([]simrt.Decision{}, res.Recorded...)
+					start = q
+				}
+				if r0 := runInFreshProcess(start, path); r0 != nil && r0.Violation != nil && r0.Violation.Class == res.Violation.Class {
+					r0.Pinned = nil
+					var runs int
+					t0 := time.Now()
+					min, minRes, runs = MinimiseWith(prop, start, r0, 160, func(q *Plan) *Result {
+						if time.Since(t0) > 90*time.Second { // wall-clock cap on process-per-candidate shrinking (affects only how small the replay gets)
+							return nil
+						}
+						return runInFreshProcess(q, path)
+					})
+					out.ShrinkRuns += runs
+				}
+			}
 			if path != "" && !*noShrink {
 				// the minimised plan must fail the same way in a fresh process; if the
 				// violation depends on process state the in-process shrinker may have been
@@ -170,7 +193,13 @@ func WorkerMain(args []string) int {
 					if r0 := runInFreshProcess(start, path); r0 != nil && r0.Violation != nil && r0.Violation.Class == res.Violation.Class {
 						r0.Pinned = nil
 						var runs int
-						min, minRes, runs = MinimiseWith(prop, start, r0, 150, func(q *Plan) *Result { return runInFreshProcess(q, path) })
+						t0 := time.Now()
+						min, minRes, runs = MinimiseWith(prop, start, r0, 150, func(q *Plan) *Result {
+							if time.Since(t0) > 90*time.Second {
+								return nil
+							}
+							return runInFreshProcess(q, path)
+						})
 						out.ShrinkRuns += runs
 					} else {
 						// seen inside this worker process only: the plan alone does not fail in a
